@@ -125,7 +125,7 @@ def gen_scenario(rng, frontend):
         if e['kind'] == 'data' and rng.random() < 0.2:
             e['wide'] = True
     return {'frontend': frontend, 'ints': ints, 'datas': datas, 'events': out, 'shared_param': rng.random() < 0.25, 'shared_validators': rng.random() < 0.5,
-            'reenter': rng.random() < 0.3, 'coalesce': frontend == 'v2' and rng.random() < 0.35}
+            'reenter': rng.random() < 0.3, 'second_connection': rng.random() < 0.3, 'coalesce': frontend == 'v2' and rng.random() < 0.35}
 
 
 # ------------------------------------------------------------------ model
@@ -317,6 +317,7 @@ class Run:
         self.nested_obs = []
         self.shutdown_at = None
         self.send_faults = 0
+        self.second_connection = False
         self.wall_steps = 0
 
 
@@ -354,6 +355,13 @@ def execute(sc):
             pit = lambda: the_app._int_tree   # noqa
         main_task = asyncio.ensure_future(the_app.main_loop())
         await asyncio.sleep(0)
+        if sc.get('second_connection'):
+            # this is not the application object's first connection: it was connected, shut down and connected again before
+            the_app.shutdown()
+            await asyncio.wait_for(main_task, 5)
+            main_task = asyncio.ensure_future(the_app.main_loop())
+            await asyncio.sleep(0)
+            R.second_connection = True
         tasks = {}
         # a second application object of the same front-end in the same process, with an Interest of the same name pending all along:
         # nothing that happens to the first application may complete or disturb it
@@ -461,6 +469,11 @@ def execute(sc):
                 content = bytes(res[1] if fe == 'v2' else res[2])
                 R.obs[iid] = ('data', int(content[1:]) if content[:1] == b'D' else content, S.now_ms())
             except BaseException as e:   # noqa
+                if isinstance(e, asyncio.CancelledError) and asyncio.current_task().cancelling() == 0:
+                    # a bare CancelledError came out of the await although NOBODY cancelled this task (it would end the caller's task
+                    # as if it had been cancelled, past every `except Exception`): an internal error, not a cancellation
+                    R.obs[iid] = ('error', RuntimeError('CancelledError raised into a task that nobody cancelled'), S.now_ms())
+                    return
                 k, d = classify_exc(e)
                 R.obs[iid] = (k, d, S.now_ms())
                 if isinstance(e, asyncio.CancelledError):
@@ -734,6 +747,8 @@ def judge(ctx, sc, R, S):
         ctx.event('express-with-a-transport-fault-in-send')
     if R.wall_steps:
         ctx.event('wall-clock-stepped-while-interests-are-pending')
+    if R.second_connection:
+        ctx.event('history-on-the-second-connection-of-the-application-object')
     for nid_, t0_, (nk, nd, nt) in R.nested_obs:
         ctx.event('interest-expressed-from-inside-a-validator')
         sd = R.shutdown_at
@@ -893,7 +908,7 @@ def run(ctx):
                 'shutdown-mixed', 'nack-for-prefix-of-pending', 'verdicts-differ', 'implicit-digest'):
         ctx.need_class('template:' + lab)
     for k in ('outcome-data', 'outcome-timeout', 'outcome-nack', 'outcome-cancel', 'outcome-valfail', 'validator-calls', 'awaited-later-than-expressed', 'other-application-unaffected', 'signed-interest-without-parameters', 'data-with-wide-integers',
-              'interest-expressed-from-inside-a-validator', 'express-with-a-transport-fault-in-send', 'wall-clock-stepped-while-interests-are-pending'):
+              'interest-expressed-from-inside-a-validator', 'express-with-a-transport-fault-in-send', 'wall-clock-stepped-while-interests-are-pending', 'history-on-the-second-connection-of-the-application-object'):
         ctx.need_event(k)
     ctx.assumptions = ['exact ties (packet / validator completion / deadline in the same millisecond) accept either order',
                        'Data arrived in time but validator slower than the deadline: Data/ValidationFailure at validator completion or timeout at the deadline are both accepted here (C05 decides that clause)',
